@@ -39,6 +39,7 @@ type Gen struct {
 	extH        map[string]uint64
 	pair        [2]string // (event type, mutated field) of the hash pair being emitted
 	genesisMode bool
+	outTimeoutMs int64
 	holderPair  bool // oracle profile: this history pits a holders list against look-alike lists
 	mxProfile   bool // mloop profile (funding happens before the Minter side is started)
 	lastSendTag string
@@ -212,7 +213,8 @@ func (g *Gen) setup() {
 			id++
 		}
 	}
-	g.do(fmt.Sprintf("param outgoing_timeout_ms %d", 50000+r.Intn(100000)))
+	g.outTimeoutMs = int64(50000 + r.Intn(100000))
+	g.do(fmt.Sprintf("param outgoing_timeout_ms %d", g.outTimeoutMs))
 	g.do(fmt.Sprintf("param target_timeout %d", 60000+r.Intn(200000)))
 	if r.Intn(3) == 0 {
 		g.do(fmt.Sprintf("param window %d", 1+r.Intn(6)))
@@ -387,7 +389,7 @@ func (g *Gen) opSend() {
 		fee = big.NewInt(1000000000000000)
 	}
 	tag := g.nextTag()
-	if g.lastSendTag != "" && g.rng.Intn(8) == 0 {
+	if g.lastSendTag != "" && g.rng.Intn(6) == 0 {
 		tag = g.lastSendTag // a second MsgSendToExternal of the same transaction: both transfers carry one tx hash
 	}
 	g.lastSendTag = tag
@@ -397,6 +399,21 @@ func (g *Gen) opSend() {
 func (g *Gen) opCancel() {
 	chain := g.pick([]string{"ethereum", "minter", "bsc"})
 	pool := g.env.Pool(g.env.ctx, chain)
+	if g.rng.Intn(3) == 0 {
+		// two transfers of one transaction (they share the hash the status is kept under): cancel both, one after the other
+		seen := map[string]*types.SendToExternal{}
+		for _, c := range []string{"ethereum", "minter", "bsc"} {
+			for _, s := range g.env.Pool(g.env.ctx, c) {
+				if o, ok := seen[s.TxHash]; ok && !strings.HasPrefix(s.TxHash, "#") && o.Sender == s.Sender {
+					g.stats["ledger:both-transfers-of-one-transaction-cancelled"]++
+					g.do(fmt.Sprintf("cancel %s %s %d", g.env.toHexAcc(o.Sender), o.ChainId, o.Id))
+					g.do(fmt.Sprintf("cancel %s %s %d", g.env.toHexAcc(s.Sender), s.ChainId, s.Id))
+					return
+				}
+				seen[s.TxHash] = s
+			}
+		}
+	}
 	sender := g.pick(g.accounts)
 	id := uint64(1 + g.rng.Intn(8))
 	if len(pool) > 0 && g.rng.Intn(4) > 0 {
@@ -641,6 +658,46 @@ func (g *Gen) runLedger(nops int) {
 	}
 	g.do(fmt.Sprintf("block %d %d", g.height, g.time))
 	g.do("begin")
+	if g.mon != nil && g.mon.prop == "C12" && g.rng.Intn(3) == 0 && g.outTimeoutMs > 0 {
+		// one account's first transfers to two chains get the same id (ids are per chain); the earlier one expires while the
+		// later one is still fresh
+		acc := g.accounts[0]
+		var cs []string
+		for _, c := range []string{"ethereum", "minter", "bsc"} {
+			if len(g.tokensOn(c)) > 0 {
+				cs = append(cs, c)
+			}
+		}
+		if len(cs) >= 2 {
+			first, second := cs[0], cs[len(cs)-1]
+			if g.rng.Intn(4) == 0 {
+				first, second = second, first
+			}
+			t1, t2 := g.tokensOn(first)[0], g.tokensOn(second)[0]
+			g.do(fmt.Sprintf("fund %s %s 1000000000000000000000", acc, t1.denom))
+			g.do(fmt.Sprintf("fund %s %s 1000000000000000000000", acc, t2.denom))
+			g.do(fmt.Sprintf("send %s %s %s %s %d %d %s", acc, first, g.pick(g.recips), t1.denom, 2000000000000000000, 1000000000000000, g.nextTag()))
+			oddNext := func() { // automatic batching happens at even heights: stay on odd ones so that both stay in the pool
+				g.height++
+				if g.height%2 == 0 {
+					g.height++
+				}
+			}
+			g.do("end")
+			oddNext()
+			g.time += g.outTimeoutMs/1000 - 3
+			g.do(fmt.Sprintf("block %d %d", g.height, g.time))
+			g.do("begin")
+			g.do(fmt.Sprintf("send %s %s %s %s %d %d %s", acc, second, g.pick(g.recips), t2.denom, 2000000000000000000, 1000000000000000, g.nextTag()))
+			g.do("end")
+			oddNext()
+			g.time += 8
+			g.do(fmt.Sprintf("block %d %d", g.height, g.time))
+			g.do("begin")
+			g.stats["ledger:same-id-on-two-chains-one-expired"]++
+			g.block()
+		}
+	}
 	if g.mon != nil && g.mon.prop == "C10" && g.rng.Intn(4) == 0 {
 		// a busy chain: two assets of one chain each have about a batch-full (100) of transfers waiting when the
 		// next automatic batching round comes
